@@ -231,6 +231,9 @@ func c16Scenario() *Scenario {
 		failing(gov2("gov(stream:fee=0.5)+failing-msg", model.StrParams, "0.500000000000000000")),
 		gov2("gov(wrk:fees=5/1/1;default=3;max=6)", model.WrkParams, anch(5, 1, 1, 3, 6)),
 		gov2("gov(wrk:max=2)", model.WrkParams, anch(24, 2, 3, 2, 2)),
+		// a maximum far above the shipped default: purchases are bounded by the parameter in force, not by a constant
+		gov2("gov(wrk:max=10^6)", model.WrkParams, anch(24, 2, 3, 2, 1_000_000)),
+		purAct("wpur(W1,#1,700000)", model.WrkPur, "W1", 1, 700_000, ""),
 		gov2("gov(wrk:default=5>max=3,INVALID)", model.WrkParams, anch(24, 2, 3, 5, 3)),
 		gov2("gov(wrk:feerec=0,INVALID)", model.WrkParams, anch(24, 0, 3, 2, 4)),
 		gov2("gov(bcn:fees=6/2/2)", model.BcnParams, anch(6, 2, 2, 2, 4)),
